@@ -247,7 +247,14 @@ func (s *c10state) process(ct types.Address, r, snd *nom.AccountBlock, merr erro
 	case "pillar.Register", "pillar.RegisterLegacy":
 		if merr == nil {
 			p := new(definition.RegisterParam)
-			_ = definition.ABIPillars.UnpackMethod(p, definition.RegisterMethodName, snd.Data)
+			if m.Name == definition.LegacyRegisterMethodName {
+				lp := new(definition.LegacyRegisterParam)
+				_ = definition.ABIPillars.UnpackMethod(lp, m.Name, snd.Data)
+				p = &lp.RegisterParam
+				c.Class("legacy-pillar-registered")
+			} else {
+				_ = definition.ABIPillars.UnpackMethod(p, definition.RegisterMethodName, snd.Data)
+			}
 			s.ents["pillar/"+p.Name] = &c10ent{kind: "pillar", name: p.Name, owner: snd.Address, token: types.ZnnTokenStandard,
 				amount: new(big.Int).Set(snd.Amount), regTime: now}
 			// registration consumes deposited QSR (burned): the deposit record follows the contract's
